@@ -26,6 +26,11 @@ CHECKS = {
          "Every single-line string up to length 5 (quick) / 6 (thorough) over a 22-character boundary alphabet, all strings <=2/3 over printable ASCII, all literal/pattern examples extended and paired, all <=4/5-line indentation sequences (open-indentation stacks as explicit states), all numeric shapes over {0,1,_} x {'',0x,0b,0X,0B} up to 9/11 characters, all name shapes, all 11 line terminators: the real token list (symbols, texts, line/column ranges) equals that of a reference tokenizer built from the documented pattern table; slices, gaps, newline and Indent/Dedent invariants checked directly; error iff reference error at the same location; Number/name classes equal the language reference's prose rules.",
          "Trusted: vk/tokref.py, vk/grammardoc.py. Texts are bounded in length; characters outside the alphabets are covered only by the ASCII/extension sweeps.",
          "DESIGN.md section 3, C10"),
+ "C05": ("exploration",
+         "bounded-exhaustive enumeration of expressions (depth<=2/3 over a leaf alphabet) x all environments of their small-domain variables, real front end annotations checked by an independent big-integer evaluator",
+         "Every expression up to depth 1 over 33 leaves and depth 2 (thorough: 3) over reduced leaf sets is compiled by the real front end; for every IR node and every environment (all values of <=20-value domains, corner alphabets for 8/32/64-bit leaves) min<=v<=max, v congruent to modular_value mod modulus, inferred constants exact, $upper_bound/$lower_bound true bounds, every accepted run-time operation fits int64 or uint64 together with its operands as values, and intervals are attained when no variable repeats.",
+         "Trusted: the evaluator in checks/c05.py (cross-checked against the generator's own AST evaluator). Wide leaves on corner alphabets only; back-end type selection is exercised by the C++ checks.",
+         "DESIGN.md section 3, C05"),
 }
 NOT_YET = "check not built yet in this round (planned in DESIGN.md section 3); no claim made"
 
